@@ -27,15 +27,16 @@ type HarnessConfig struct {
 }
 
 type Finding struct {
-	Kind     string      `json:"kind"` // violation | panic | bound | deadlock
-	Harness  string      `json:"harness"`
-	AssertID string      `json:"assert_id,omitempty"`
-	Msg      string      `json:"msg"`
-	Known    string      `json:"known,omitempty"`
-	Trace    string      `json:"trace"`
-	Nondets  []NondetVal `json:"nondets"`
-	Stack    string      `json:"stack,omitempty"`
-	Pos      string      `json:"pos,omitempty"`
+	Kind       string      `json:"kind"` // violation | panic | bound | deadlock
+	Harness    string      `json:"harness"`
+	AssertID   string      `json:"assert_id,omitempty"`
+	Msg        string      `json:"msg"`
+	Known      string      `json:"known,omitempty"`
+	EngineOnly string      `json:"engine_only,omitempty"`
+	Trace      string      `json:"trace"`
+	Nondets    []NondetVal `json:"nondets"`
+	Stack      string      `json:"stack,omitempty"`
+	Pos        string      `json:"pos,omitempty"`
 }
 
 type HarnessResult struct {
@@ -118,6 +119,7 @@ func (w *worker) runPath(prefix []decision) (res PathResult, pending [][]decisio
 	}()
 	i.killThreads()
 	res.Known = ex.known
+	res.EngineOnly = ex.engineOnly
 	res.Trace = ex.traceString()
 	res.Reached = ex.reached
 	res.Asserts = ex.asserts
@@ -270,7 +272,7 @@ func RunHarness(prog *ssa.Program, fn *ssa.Function, cfg *HarnessConfig) *Harnes
 				switch res.Kind {
 				case oViolation, oPanic, oBound, oDeadlock:
 					hr.Findings = append(hr.Findings, Finding{Kind: res.Kind.String(), Harness: fn.Name(), AssertID: res.AssertID,
-						Msg: res.Msg, Known: res.Known, Trace: res.Trace, Nondets: res.Nondets, Stack: res.Stack})
+						Msg: res.Msg, Known: res.Known, EngineOnly: res.EngineOnly, Trace: res.Trace, Nondets: res.Nondets, Stack: res.Stack})
 					if (cfg.StopAtFirst || len(hr.Findings) >= 40) && res.Known == "" {
 						stop = true // enough counterexamples: the check fails anyway
 					}
